@@ -59,6 +59,15 @@ void buildSeeds(bool thorough)
 		std::vector<ref::Field> f; auto bytes = ref::encodePrt(r, &f);
 		gSeeds.push_back({ "prt", 2, mc::FaultSeed{ "prt", bytes, conv(f), true, 0, 0 } });
 	}
+	{
+		// PRT files without animations (the three trailing totals are the last bytes of the file) and without anything
+		std::vector<int> cfg(prtc::kDims, 0); cfg[4] = 1;
+		ref::RPrt r = prtc::makePrt(cfg);
+		std::vector<ref::Field> f; auto bytes = ref::encodePrt(r, &f);
+		gSeeds.push_back({ "prt-no-animations", 2, mc::FaultSeed{ "prt-no-animations", bytes, conv(f), true, 0, 0 } });
+		ref::RPrt e; std::vector<ref::Field> fe; auto be = ref::encodePrt(e, &fe);
+		gSeeds.push_back({ "prt-empty", 2, mc::FaultSeed{ "prt-empty", be, conv(fe), true, 0, 0 } });
+	}
 	for (auto& s : gSeeds) gSpaces.push_back(std::make_unique<mc::FaultSpace>(s.fs, thorough));
 
 	// --- arithmetically constructed headers that satisfy the size cross-checks modulo 2^64 / 2^32 ---
